@@ -235,21 +235,7 @@ func catchPanic(function func()) (err error) {
 				err = &Error{caught}
 				return
 			case Value:
-				if obj := caught.object(); obj != nil {
-					if vl, ok := obj.value.(ottoError); ok {
-						// Describe the error as it is when thrown: name and
-						// message may have been assigned after construction.
-						if name := obj.get("name"); name.IsString() {
-							vl.name = name.string()
-						}
-						if message := obj.get("message"); message.IsString() {
-							vl.message = message.string()
-						}
-						err = &Error{vl}
-						return
-					}
-				}
-				err = errors.New(caught.string())
+				err = describeThrown(caught)
 				return
 			}
 			panic(caught)
@@ -257,4 +243,50 @@ func catchPanic(function func()) (err error) {
 	}()
 	function()
 	return nil
+}
+
+// describeThrown turns an uncaught thrown value into the error the caller gets.
+// Describing it may run script code (toString, an accessor for name or
+// message); if that code throws as well, the caller gets that second exception
+// instead, described without running anything further.
+func describeThrown(thrown Value) (err error) {
+	defer func() {
+		if caught := recover(); caught != nil {
+			if excep, ok := caught.(*exception); ok {
+				caught = excep.eject()
+			}
+			switch caught := caught.(type) {
+			case *Error:
+				err = caught
+			case ottoError:
+				err = &Error{caught}
+			case Value:
+				if obj := caught.object(); obj != nil {
+					if vl, ok := obj.value.(ottoError); ok {
+						err = &Error{vl}
+					} else {
+						err = fmt.Errorf("[object %s]", obj.class)
+					}
+				} else {
+					err = errors.New(caught.string())
+				}
+			default:
+				panic(caught)
+			}
+		}
+	}()
+	if obj := thrown.object(); obj != nil {
+		if vl, ok := obj.value.(ottoError); ok {
+			// Describe the error as it is when thrown: name and
+			// message may have been assigned after construction.
+			if name := obj.get("name"); name.IsString() {
+				vl.name = name.string()
+			}
+			if message := obj.get("message"); message.IsString() {
+				vl.message = message.string()
+			}
+			return &Error{vl}
+		}
+	}
+	return errors.New(thrown.string())
 }
